@@ -152,3 +152,83 @@ Section OneSig.
     exists s, k, tag, cands. auto 12.
   Qed.
 End OneSig.
+
+(* isSynthesizedCNAME: exactly the RFC 6672 substitution under a proper DNAME ancestor *)
+Lemma synthesized_cname_iff owner target dnames :
+  is_synthesized_cname owner target dnames = true <->
+  exists d, In d dnames /\ 0 < count_label (fst d) /\ count_label (fst d) < count_label owner /\
+    compare_suffix (fst d) owner = count_label (fst d) /\
+    equal_fold (fqdn (firstn (N.to_nat (prev_label owner (count_label (fst d)))) owner ++ snd d)) (fqdn target) = true.
+Proof.
+  unfold is_synthesized_cname. rewrite existsb_exists. split.
+  - intros (d & Hd & H). exists d. split; [exact Hd|].
+    destruct (count_label (fst d) =? 0) eqn:E0; [discriminate|]. apply N.eqb_neq in E0.
+    destruct (count_label owner <=? count_label (fst d)) eqn:E1; [discriminate|]. apply N.leb_gt in E1.
+    cbn [orb] in H.
+    destruct (compare_suffix (fst d) owner =? count_label (fst d)) eqn:E2; [|discriminate]. apply N.eqb_eq in E2.
+    cbn [negb] in H. rewrite E2 in H. repeat split; try lia; assumption.
+  - intros (d & Hd & H0 & H1 & H2 & H3). exists d. split; [exact Hd|].
+    assert (E0 : (count_label (fst d) =? 0) = false) by (apply N.eqb_neq; lia).
+    assert (E1 : (count_label owner <=? count_label (fst d)) = false) by (apply N.leb_gt; lia).
+    rewrite E0, E1. cbn [orb]. rewrite H2, N.eqb_refl. cbn [negb]. exact H3.
+Qed.
+
+(* RFC 2181 5.4.1 / issue #506: a record of the authority section owned outside the signer zone — the
+   zone cut's NS or DS denial an upstream appends to a positive answer — takes no part: the verdict
+   with it is the verdict without it, whatever the record is (a DNAME there authorises nothing). *)
+Lemma rrs_of_app a b : rrs_of (a ++ b) = rrs_of a ++ rrs_of b.
+Proof. unfold rrs_of. apply flat_map_app. Qed.
+Lemma sigs_of_app a b : sigs_of (a ++ b) = sigs_of a ++ sigs_of b.
+Proof. unfold sigs_of. apply flat_map_app. Qed.
+Lemma filter_ext_eq {A} (f g : A -> bool) l : (forall x, f x = g x) -> filter f l = filter g l.
+Proof. intros E. induction l as [|x l IH]; cbn; [reflexivity|]. rewrite E, IH. reflexivity. Qed.
+
+Section Remnant.
+  Variable ONE : list rr -> rrsig -> bool -> bool.
+  Variable signer : list N.
+  Variables answer ns : list mitem.
+  Variable x : rr.
+  Hypothesis Hd : list_eqb (r_kind x) KIND_DNAME && walk_in_zone signer x = false.
+  Hypothesis Ha : negb (r_type x =? TYPE_NS) && walk_in_zone signer x = false.
+  Let ns' := ns ++ [MR x].
+
+  Lemma remnant_dnames : walk_dnames signer answer ns' = walk_dnames signer answer ns.
+  Proof.
+    unfold walk_dnames, ns'. rewrite rrs_of_app. cbn [rrs_of flat_map app].
+    rewrite !app_assoc, filter_app. cbn [filter]. rewrite Hd, app_nil_r. reflexivity.
+  Qed.
+  Lemma remnant_keep r : walk_keep signer answer ns' r = walk_keep signer answer ns r.
+  Proof. unfold walk_keep. rewrite remnant_dnames. reflexivity. Qed.
+  Lemma remnant_records : walk_records signer answer ns' = walk_records signer answer ns.
+  Proof.
+    unfold walk_records, walk_answer, walk_authority.
+    rewrite (filter_ext_eq _ _ _ remnant_keep). f_equal.
+    rewrite (filter_ext_eq _ (fun r => walk_keep signer answer ns r && negb (r_type r =? TYPE_NS) && walk_in_zone signer r))
+      by (intros r; rewrite remnant_keep; reflexivity).
+    unfold ns'. rewrite rrs_of_app. cbn [rrs_of flat_map app]. rewrite filter_app. cbn [filter].
+    rewrite <- Bool.andb_assoc, Ha, Bool.andb_false_r, app_nil_r. reflexivity.
+  Qed.
+  Lemma remnant_sigs : walk_sigs answer ns' = walk_sigs answer ns.
+  Proof. unfold walk_sigs, ns'. rewrite sigs_of_app. cbn. rewrite app_nil_r. reflexivity. Qed.
+
+  Theorem authority_record_not_taking_part :
+    walk_verdict ONE signer answer ns' = walk_verdict ONE signer answer ns.
+  Proof.
+    unfold walk_verdict. rewrite remnant_records.
+    assert (A : walk_answer signer answer ns' = walk_answer signer answer ns).
+    { unfold walk_answer. apply filter_ext_eq, remnant_keep. }
+    rewrite A.
+    destruct (existsb _ (walk_answer signer answer ns)); [reflexivity|].
+    destruct (is_nil (walk_records signer answer ns)); [reflexivity|].
+    assert (G : forall r, walk_group_verified ONE signer answer ns' r = walk_group_verified ONE signer answer ns r).
+    { intros r. unfold walk_group_verified, walk_group. rewrite remnant_records, remnant_sigs. reflexivity. }
+    induction (walk_records signer answer ns) as [|r l IH]; cbn [forallb]; [reflexivity|]. rewrite G, IH. reflexivity.
+  Qed.
+End Remnant.
+
+Theorem authority_remnant_ignored ONE signer answer ns x : walk_in_zone signer x = false ->
+  walk_verdict ONE signer answer (ns ++ [MR x]) = walk_verdict ONE signer answer ns.
+Proof. intros H. apply authority_record_not_taking_part; rewrite H; apply Bool.andb_false_r. Qed.
+Theorem authority_ns_ignored ONE signer answer ns x : r_type x = TYPE_NS -> list_eqb (r_kind x) KIND_DNAME = false ->
+  walk_verdict ONE signer answer (ns ++ [MR x]) = walk_verdict ONE signer answer ns.
+Proof. intros Ht Hk. apply authority_record_not_taking_part; [rewrite Hk|rewrite Ht]; reflexivity. Qed.
